@@ -217,8 +217,28 @@ func acOne(c acCase, tr *traceWriter) {
 			out = ctx.Cookie("k")
 		}
 	}
-	f.Routes("/q", "GET,POST", h)
-	f.Routes("/p/{k}", "GET,POST", h)
+	// an earlier request to the same routes whose handler leaves something behind in the Params map IT was given: the map
+	// of a request is that request's own (also on a route without bind parameters)
+	poison := true
+	hp := func(ctx flamego.Context) {
+		if poison {
+			if ctx.Params() != nil {
+				ctx.Params()["k"] = "91"
+				ctx.Params()["route"] = "left-behind"
+			}
+			return
+		}
+		h(ctx)
+	}
+	f.Routes("/q", "GET,POST", hp)
+	f.Routes("/p/{k}", "GET,POST", hp)
+	for _, m := range []string{"GET", "POST"} {
+		for _, pth := range []string{"/q", "/p/77"} {
+			wr, _ := http.NewRequest(m, pth, nil)
+			f.ServeHTTP(httptest.NewRecorder(), wr)
+		}
+	}
+	poison = false
 	req, _ := http.NewRequest("GET", "/q", nil)
 	if (len(c.Raw)+len(c.Def)+len(c.Fn))%3 == 0 {
 		// a form post whose BODY carries the key too: the accessors read the query string, parameters and cookies only
